@@ -464,14 +464,22 @@ Definition hook_notify : M := lift (fun s => logo (ONotify (sort_nat (s_cfg s)))
 Definition combined_path (m : machine) (d : nat) (hts : list nat) : list nat :=
   fold_left (fun acc h => fold_left (fun acc' x => if mem x acc' then acc' else acc' ++ [x]) (path_to m h d) acc) hts [].
 
+(* A transition that targets the machine root (also: the root re-entering itself) has no parent domain:
+   _find_transition_domain returns None, "the whole machine": every active state - the root included - is exited and the
+   root is entered again, like any other re-entered state. *)
+Definition ext_exit_set (m : machine) (C : config) (H : list (nat * list nat)) (d tgt : nat) : list nat :=
+  if Nat.eqb tgt 0 then C else exit_set_h m C H d tgt.
+Definition ext_path (m : machine) (tgt d : nat) : list nat :=
+  if Nat.eqb tgt 0 then [0] else path_to m tgt d.
+
 Definition exec_external (eng : engine) (pr : bool) (m : machine) (t : trans) (tgt : nat) (ev : event) : M :=
   fun s0 =>
     let snapshot := s_cfg s0 in
     let d := find_domain m (t_src t) tgt in
-    let xs := exit_set_h m snapshot (s_hist s0) d tgt in
+    let xs := ext_exit_set m snapshot (s_hist s0) d tgt in
     let hist := is_history m tgt in
     let hts := if hist then resolve_history m (s_hist s0) tgt else [] in
-    let path := if hist then [] else path_to m tgt d in
+    let path := if hist then [] else ext_path m tgt d in
     let body :=
       exit_states eng pr m (rev (sort_by (lt_depth_id m) xs)) (Some ev) ;;
       (fun s => exec_actions eng pr (t_actions t) ev s) ;;
